@@ -231,7 +231,11 @@ def judge_accessors(d, u, table, problems):
                 cell = table[row][col]
                 if c["rc"] != 0 or c["v"] != cell:
                     problems.append(("accessor-c-vs-table", "%s: second read gives %r, first read gave %r" % (where, c, cell)))
-                et, ed, es = expected_v2(cell)
+                ev2 = expected_v2(cell)
+                if ev2 is None:
+                    problems.append(("table-error-cell", "%s: the table holds an error-typed VAR %r at a valid (row, col)" % (where, cell)))
+                    continue
+                et, ed, es = ev2
                 for nm, x in (("Value2", c2), ("ValueF", f)):
                     bad = x["rc"] != 0 or x["type"] != et
                     if not bad and ed is not None:
